@@ -168,7 +168,10 @@ Proof. vm_compute. reflexivity. Qed.
    commits a transaction with change records rs) and of deliveries (Pull i j x extra: node i
    obtains version x from node j, which hands out the records of x that are still live in its
    own database -- a relay or a sync server -- plus possibly some superseded ones; a version
-   becomes visible as a whole: C03).  U = every record of every acknowledged transaction.
+   becomes visible as a whole: C03; PullMix i x srv: node i assembles version x from chunks served
+   by SEVERAL nodes -- the record at position p comes from node (nth p srv) and arrives iff it is
+   live THERE, the case C03's ingest theorem leaves to the runs).
+   U = every record of every acknowledged transaction.
    Hypotheses on U: wf (as above), clk_unique (a clock position names one record) and no_tie
    (no two different records for one row that the merge cannot order: two deletes with the
    same causal length, or two equal values from one site).
@@ -310,3 +313,26 @@ Theorem C01_cluster_shown_values_were_acknowledged : forall n ops i nd k v,
   exists r, In r (all_recs (c_log (crun n ops))) /\ r_row r = k /\ r_val r = v.
 Proof. exact cluster_shown_values_were_acknowledged. Qed.
 Print Assumptions C01_cluster_shown_values_were_acknowledged.
+
+(* a version assembled from chunks of two relays that had superseded different parts of it:
+   node 0 commits a two-row transaction; node 1 overwrites row 1, node 2 overwrites row 2, each
+   after receiving the transaction; node 3 obtains the transaction's first record from node 1
+   (where it is no longer live) and the second from node 2 (likewise): it receives NOTHING of
+   version 0, then the two overwrites -- and shows what everybody shows *)
+Definition mx_a := mkRec 1 false 5 1 1 0 1 0.
+Definition mx_b := mkRec 2 false 6 1 1 0 1 1.
+Definition mx_c := mkRec 1 false 7 2 1 1 1 0.         (* node 1 updates row 1 *)
+Definition mx_d := mkRec 2 false 8 2 1 2 1 0.         (* node 2 updates row 2 *)
+Definition mx_ops : list cop :=
+  [Local 0 [mx_a; mx_b]; Pull 1 0 0 []; Pull 2 0 0 []; Local 1 [mx_c]; Local 2 [mx_d];
+   Pull 1 2 2 []; Pull 2 1 1 [];
+   PullMix 3 0 [1%nat; 2%nat]; Pull 3 1 1 []; Pull 3 2 2 []; Pull 0 1 1 []; Pull 0 2 2 []].
+Example C01_cluster_mixed_suppliers :
+  let s := crun 4 mx_ops in
+  let U := all_recs (c_log s) in
+  no_tie U = true /\ clk_unique U = true /\
+  forallb (knows_all (c_log s)) (c_nodes s) = true /\
+  map (fun nd => length (n_merged nd)) (c_nodes s) = [4%nat; 4%nat; 4%nat; 2%nat] /\
+  map (fun nd => table (n_db nd)) (c_nodes s) =
+    [[(1, Some 7); (2, Some 8)]; [(1, Some 7); (2, Some 8)]; [(1, Some 7); (2, Some 8)]; [(1, Some 7); (2, Some 8)]].
+Proof. vm_compute. repeat split; reflexivity. Qed.
